@@ -73,6 +73,10 @@ pub enum Op {
     NsEntry { e: Lid, prefix: String, mode: EntryMode, uri: String },
     SetNamespace { e: Lid, prefix: String, uri: String },
     RemoveNamespace { e: Lid, prefix: String },
+    /// several updates through ONE `attributes_mut` view object: (key, Some(value)) = insert, (key, None) = remove
+    AttrBatch { e: Lid, items: Vec<(Nm, Option<String>)> },
+    /// the same through one `namespaces_mut` view object
+    NsBatch { e: Lid, items: Vec<(String, Option<String>)> },
     // values
     SetElementName { e: Lid, name: Nm },
     TextSet { n: Lid, s: String },
@@ -135,6 +139,8 @@ impl Op {
             AppendElement { .. } => "append_element",
             AppendComment { .. } => "append_comment",
             AppendPI { .. } => "append_processing_instruction",
+            AttrBatch { .. } => "attributes_mut.batch",
+            NsBatch { .. } => "namespaces_mut.batch",
             AttrInsert { .. } => "attributes_mut.insert",
             AttrRemove { .. } => "attributes_mut.remove",
             AttrGetMutSet { .. } => "attributes_mut.get_mut",
@@ -205,6 +211,8 @@ impl Op {
             | NsEntry { e, .. }
             | SetNamespace { e, .. }
             | RemoveNamespace { e, .. }
+            | AttrBatch { e, .. }
+            | NsBatch { e, .. }
             | SetElementName { e, .. } => vec![*e],
             _ => vec![],
         }
@@ -229,6 +237,8 @@ impl Op {
                 | NsEntry { .. }
                 | SetNamespace { .. }
                 | RemoveNamespace { .. }
+                | AttrBatch { .. }
+                | NsBatch { .. }
                 | SetElementName { .. }
         )
     }
@@ -415,6 +425,30 @@ impl Op {
                     return Pred::Refuse;
                 }
                 m.ns_insert(*e, prefix, uri)
+            }
+            AttrBatch { e, items } => {
+                if m.k(*e) != K::Elem {
+                    return Pred::Refuse;
+                }
+                for (name, v) in items {
+                    match v {
+                        Some(value) => m.attr_insert(*e, name, value),
+                        None => m.map_remove(*e, &MapKey::Attr(name.clone())),
+                    };
+                }
+                Pred::Done(None)
+            }
+            NsBatch { e, items } => {
+                if m.k(*e) != K::Elem {
+                    return Pred::Refuse;
+                }
+                for (prefix, v) in items {
+                    match v {
+                        Some(uri) => m.ns_insert(*e, prefix, uri),
+                        None => m.map_remove(*e, &MapKey::Ns(prefix.clone())),
+                    };
+                }
+                Pred::Done(None)
             }
             NsRemove { e, prefix } | RemoveNamespace { e, prefix } => {
                 if m.k(*e) != K::Elem {
@@ -699,6 +733,37 @@ impl Op {
                 let mut a = x.namespaces_mut(h(*e));
                 a.insert(p, u);
                 Ok(a.get_node(p))
+            }
+            AttrBatch { e, items } => {
+                let keys: Vec<_> = items.iter().map(|(nm, _)| name(x, nm)).collect();
+                let mut a = x.attributes_mut(h(*e));
+                for (k, (_, v)) in keys.iter().zip(items.iter()) {
+                    // what the view hands back must be what the same view showed just before
+                    let before = a.get(*k).cloned();
+                    let got = match v {
+                        Some(value) => a.insert(*k, value.clone()),
+                        None => a.remove(*k),
+                    };
+                    if got != before {
+                        return Err(format!("oracle:C11:attributes_mut view returned {:?} as previous value, get() showed {:?}", got, before));
+                    }
+                }
+                Ok(None)
+            }
+            NsBatch { e, items } => {
+                let keys: Vec<_> = items.iter().map(|(p, v)| (x.add_prefix(p), v.as_ref().map(|u| x.add_namespace(u)))).collect();
+                let mut a = x.namespaces_mut(h(*e));
+                for (p, v) in keys {
+                    let before = a.get(p).copied();
+                    let got = match v {
+                        Some(u) => a.insert(p, u),
+                        None => a.remove(p),
+                    };
+                    if got != before {
+                        return Err(format!("oracle:C11:namespaces_mut view returned {:?} as previous value, get() showed {:?}", got, before));
+                    }
+                }
+                Ok(None)
             }
             SetNamespace { e, prefix, uri } => {
                 let p = x.add_prefix(prefix);
